@@ -603,17 +603,20 @@ package tabular
 //@   loop#1 decreases len(row.cells) - rangeindex
 
 //@ func (*ATable).AppendNewRow
-//@   tags C02,C09
+//@   tags C02,C11,C09
 //@   requires [table] WF(t) && tblProps(t) && colsOwn(t) && len(t.rows) <= 1099511627774
 //@   assigns t.rows, elemscap(t.rows), new(Row), t.columns, t.nColumns, elemscap(t.columns), new(column), t.ErrorContainer.errors_, elemscap(t.ErrorContainer.errors_), new(valueProperty), ghost cbErrN, ghost cbErrLog, ghost cbCallN, ghost cbCallSelf, ghost cbCallOwner, ghost addColFires, ghost addTblFires, ghost addRowFires
 //@   ensures [invariant] WF(t) && tblProps(t) && colsOwn(t)
 //@   ensures [appended] len(t.rows) == old(len(t.rows)) + 1 && t.rows[len(t.rows)-1] == result && fresh(result) && len(result.cells) == 0 && !result.isSeparator && result.rowNum == len(t.rows) && result.inTable == t @C02
 //@   ensures [earlier-rows-kept] forall i int :: {t.rows[i]} {old(t.rows[i])} 0 <= i && i < old(len(t.rows)) ==> t.rows[i] == old(t.rows[i]) @C02
 //@   ensures [columns-unchanged] t.nColumns == old(t.nColumns) && t.headerRow == old(t.headerRow) @C02
+//@   ensures [new-row-reports-to-the-tables-error-list] result.ErrorContainer == t.ErrorContainer && t.ErrorContainer == old(t.ErrorContainer) @C11
+//@   ensures [errors-none-lost-none-duplicated] len(t.ErrorContainer.errors_) == old(len(t.ErrorContainer.errors_)) + (cbErrN - old(cbErrN)) @C11
+//@   ensures [table-errors-kept] forall i int :: {old(t.ErrorContainer.errors_[i])} 0 <= i && i < old(len(t.ErrorContainer.errors_)) ==> t.ErrorContainer.errors_[i] == old(t.ErrorContainer.errors_[i]) @C11
 //@   call AddRow before unfold chainOK(heap[valueProperty.chain], heap[valueProperty.key], heap[valueProperty.val], nil)
 
 //@ func (*ATable).AddRowItems
-//@   tags C02,C09
+//@   tags C02,C11,C09
 //@   requires [table] WF(t) && tblProps(t) && colsOwn(t) && len(t.rows) <= 1099511627774 && len(items) <= 1099511627774
 //@   requires [nested-cells-ok] forall i int :: {items[i]} 0 <= i && i < len(items) ==> (dyn(items[i]) == type[Cell] ==> cellValOK(items[i].(Cell)))
 //@   assigns t.rows, elemscap(t.rows), new(Row), t.columns, t.nColumns, elemscap(t.columns), new(column), t.ErrorContainer.errors_, elemscap(t.ErrorContainer.errors_), new(valueProperty), new(ErrorContainer), ghost cbErrN, ghost cbErrLog, ghost cbCallN, ghost cbCallSelf, ghost cbCallOwner, ghost addColFires, ghost addTblFires, ghost addRowFires
@@ -622,12 +625,15 @@ package tabular
 //@   ensures [items-in-order] forall k int :: {items[k]} 0 <= k && k < len(items) ==> t.rows[len(t.rows)-1].cells[k].raw === items[k] @C02
 //@   ensures [earlier-rows-kept] forall i int :: {t.rows[i]} {old(t.rows[i])} 0 <= i && i < old(len(t.rows)) ==> t.rows[i] == old(t.rows[i]) @C02
 //@   ensures [columns-follow] t.nColumns == max(old(t.nColumns), len(items)) && t.headerRow == old(t.headerRow) @C02
+//@   ensures [new-row-reports-to-the-tables-error-list] t.rows[len(t.rows)-1].ErrorContainer == t.ErrorContainer && t.ErrorContainer == old(t.ErrorContainer) @C11
+//@   ensures [table-errors-kept] forall i int :: {old(t.ErrorContainer.errors_[i])} 0 <= i && i < old(len(t.ErrorContainer.errors_)) ==> t.ErrorContainer.errors_[i] == old(t.ErrorContainer.errors_[i]) @C11
 //@   ensures [returns-table] result == mkiface(type[*ATable], box(t))
 //@   loop#1 invariant -1 <= rangeindex && rangeindex < len(items)
 //@   loop#1 invariant WFrow(r) && rowProps(r) && cellsOwn(r) && fresh(r) && fresh(r.cells) && len(r.cells) == rangeindex + 1 && (r.ErrorContainer == nil || (fresh(r.ErrorContainer) && fresh(r.ErrorContainer.errors_)))
 //@   loop#1 invariant forall k int :: {items[k]} 0 <= k && k <= rangeindex ==> r.cells[k].raw === items[k]
 //@   loop#1 invariant WF(t) && tblProps(t) && colsOwn(t) && t.rows === old(t.rows) && t.columns === old(t.columns) && t.nColumns == old(t.nColumns) && t.headerRow == old(t.headerRow) && t.ErrorContainer == old(t.ErrorContainer) && t.ErrorContainer.errors_ === old(t.ErrorContainer.errors_)
 //@   loop#1 invariant forall i int :: {t.rows[i]} {old(t.rows[i])} 0 <= i && i < len(t.rows) ==> t.rows[i] == old(t.rows[i])
+//@   loop#1 invariant forall i int :: {old(t.ErrorContainer.errors_[i])} 0 <= i && i < old(len(t.ErrorContainer.errors_)) ==> t.ErrorContainer.errors_[i] == old(t.ErrorContainer.errors_[i])
 //@   loop#1 decreases len(items) - rangeindex
 //@   loop#1 unfold chainOK(heap[valueProperty.chain], heap[valueProperty.key], heap[valueProperty.val], nil)
 //@   entry unfold chainOK(heap[valueProperty.chain], heap[valueProperty.key], heap[valueProperty.val], nil)
